@@ -42,7 +42,7 @@ def run_seed(name: str, repo: str) -> dict:
                 continue
             first = next((l.strip() for l in r.stdout.splitlines() if l.startswith("  rule=")), "") or next((l for l in r.stdout.splitlines() if l.startswith("ANALYSIS")), "")
             res[prop] = {"rc": r.returncode, "rule": first.split(" ")[0].replace("rule=", "") if first.startswith("rule=") else "", "first": first[:240]}
-        return {"seed": name, "property": meta["property"], "fired": res}
+        return {"seed": name, "property": meta["property"], "decided_by": meta.get("caught_by") or meta["property"], "fired": res}
     finally:
         shutil.rmtree(tmp, ignore_errors=True)
 
@@ -56,8 +56,8 @@ def main(argv=None) -> int:
     if args.only:
         r = run_seed(args.only, args.repo)
         fired = r.get("fired", {})
-        own = fired.get(r["property"])
-        print(f"seed {args.only} (property {r['property']}): " + ("CAUGHT by its own property's check" if own and own["rc"] == 1 else ("caught by another property's check only" if any(x["rc"] == 1 for x in fired.values()) else "MISSED")))
+        own = fired.get(r.get("decided_by", r["property"]))
+        print(f"seed {args.only} (property {r['property']}" + (f", decided by {r['decided_by']}" if r.get("decided_by") != r["property"] else "") + "): " + ("CAUGHT by its own property's check" if own and own["rc"] == 1 else ("caught by another property's check only" if any(x["rc"] == 1 for x in fired.values()) else "MISSED")))
         for p_, x in sorted(fired.items()):
             print(f"  {p_} rc={x['rc']} {x['first'][:230]}")
         return 0
@@ -73,12 +73,13 @@ def main(argv=None) -> int:
     missed = 0
     for r in rows:
         fired = r.get("fired", {})
-        own = fired.get(r["property"])
+        dec = r.get("decided_by", r["property"])
+        own = fired.get(dec)
         caught = bool(own and own["rc"] == 1)
         missed += 0 if caught else 1
-        others = sorted(p for p, x in fired.items() if p != r["property"] and x["rc"] == 1)
+        others = sorted(p for p, x in fired.items() if p != dec and x["rc"] == 1)
         errs = sorted(p for p, x in fired.items() if x["rc"] != 1)
-        lines.append(f"| {r['seed']} | {r['property']} | {'fires' if caught else 'MISSED'} | {own['rule'] if caught else ''} | {' '.join(others)} | {' '.join(errs)} |")
+        lines.append(f"| {r['seed']} | {r['property']} | {('fires' if dec == r['property'] else 'fires in ' + dec + ' (see meta.json)') if caught else 'MISSED'} | {own['rule'] if caught else ''} | {' '.join(others)} | {' '.join(errs)} |")
     with open(os.path.join(sd, "MATRIX.md"), "w") as f:
         f.write("\n".join(lines) + "\n")
     print("\n".join(lines))
